@@ -64,6 +64,35 @@ def check(ctx):
     ops = {last_attr(c) for c in calls_in(ss) if isinstance(c.func, ast.Attribute)} & CONTENT_CHANGING
     ctx.ob("R1", f"{CO}:_Formatter._source_slice", "the source slice is returned without content-changing operations", not ops, key="source_slice|ops", detail=str(sorted(ops)))
 
+    # row tables: the tokenizer numbers rows by "\n" only; a table indexed by token rows must be split the same way
+    n_tab = 0
+    # the tables: attributes self.X that are indexed with a tokenizer row (`tok.start[0] - 1`, `s_line - 1` ...)
+    row_tables = set()
+    for q, fn in co.functions():
+        for n in walk_local(fn):
+            if isinstance(n, ast.Subscript) and isinstance(n.value, ast.Attribute) and isinstance(n.value.value, ast.Name) and n.value.value.id == "self" and not isinstance(n.slice, ast.Slice):
+                it = unparse(n.slice)
+                if ".start[0]" in it or ".end[0]" in it or "_line" in it:
+                    row_tables.add(n.value.attr)
+    if not row_tables:
+        raise AnalysisError(f"{CO}: no table indexed by tokenizer rows found")
+    for q, fn in co.functions():
+        for n in walk_local(fn):
+            if isinstance(n, (ast.Assign, ast.AnnAssign)) and n.value is not None:
+                tg = n.targets if isinstance(n, ast.Assign) else [n.target]
+                if not any(isinstance(t, ast.Attribute) and isinstance(t.value, ast.Name) and t.value.id == "self" and t.attr in row_tables for t in tg):
+                    continue
+                v = n.value
+                while isinstance(v, ast.Call) and call_name(v) in ("list", "tuple") and len(v.args) == 1:
+                    v = v.args[0]
+                n_tab += 1
+                exact = isinstance(v, ast.Call) and isinstance(v.func, ast.Attribute) and v.func.attr == "split" and [const_value(a) for a in v.args] == ["\n"] and not v.keywords
+                uses_splitlines = any(isinstance(x, ast.Call) and last_attr(x) == "splitlines" for x in ast.walk(n.value))
+                if not exact and not uses_splitlines:
+                    raise AnalysisError(f"{CO}:{q}: `{short(n, 60)}`: cannot decide how the row table is split")
+                ctx.ob("R1", f"{CO}:{q}", f"`{short(n, 60)}`: the source line table (indexed by tokenizer row numbers, which count only \\n) is split on \\n, not with splitlines() (which also breaks at \\f, \\v, \\x85, U+2028 ...)", exact, key=f"{q}|line-table-split", where=loc(n))
+    if n_tab < 1:
+        raise AnalysisError(f"{CO}: no source line table found")
     # ------------------------------------------------------------------ R2
     fz = co.func("_Formatter._finalize")
     textp = fz.args.args[1].arg
@@ -139,7 +168,8 @@ META = {
     "technique": "static analysis: return-shape/provenance check of the token renderer, operation whitelist over the joined text, CFG dominance and guard facts before the write-back",
     "text": "Decides the three structural clauses the property rests on, for all programs: every return of "
     "_render_token is the token's own text (tok.string, the comment lstrip, a source slice, or the brace re-escape "
-    "confined to FSTRING_MIDDLE); content-changing string operations applied to pieces of the *joined* text are "
+    "confined to FSTRING_MIDDLE); the row table those slices index is split on \\n exactly (tokenizer rows count "
+    "only \\n; splitlines() also breaks at \\f, \\v, U+2028 ...); content-changing string operations applied to pieces of the *joined* text are "
     "reported (known finding: _finalize's per-line rstrip reaches inside multi-line string literals); in the CLI "
     "the write-mode open is dominated by a normally returning format_source, guarded by `original != formatted` and "
     "by not --check/--diff, writes exactly the formatter's output, and tokenizer errors become FormatError handled "
